@@ -552,7 +552,7 @@ func TestVerifC34(t *testing.T) {
 	// closed (Subscribe saw the index reached, or Signal found the subscriber). No timing
 	// assumption: the close happens inside one of the two calls.
 	{
-		rounds := vfScale(6000, 1500000)
+		rounds := vfScale(15000, 1500000)
 		rt := NewReadyTarget[uint64]()
 		lost := 0
 		firstLost := -1
